@@ -102,9 +102,11 @@ def waitFor (limit : Option Nat) (j : Job) (seconds : Int) : M RtState TExc Unit
     if isDone s j then (s, .next ()) else (s.force s.now ⟨j.k, s.now, .cancelled⟩, .next ())
   taskCancelled s j := (s.forced j.k).isSome
   taskException j := fun s =>
-    (s, .next (match s.forced j.k with
-      | some _ => none
-      | none => if j.ok then none else some .failure))
+    match s.forced j.k with
+    | some _ => (s, .raise .cancelled)      -- `exception()` of a cancelled task raises CancelledError
+    | none =>
+      if j.doneBy s.now then (s, .next (if j.ok then none else some .failure))
+      else (s, .raise .failure)             -- … of a task that is not done: InvalidStateError
 
 @[simp] theorem rt_excIs (limit : Option Nat) : (rtPrims limit).excIs = excIs := rfl
 @[simp] theorem rt_sortDesc (limit : Option Nat) : (rtPrims limit).sortDesc = sortJobs := rfl
@@ -120,9 +122,11 @@ def waitFor (limit : Option Nat) (j : Job) (seconds : Int) : M RtState TExc Unit
 @[simp] theorem rt_taskCancelled (limit : Option Nat) (s : RtState) (j : Job) :
     (rtPrims limit).taskCancelled s j = (s.forced j.k).isSome := rfl
 @[simp] theorem rt_taskException (limit : Option Nat) (j : Job) (s : RtState) :
-    (rtPrims limit).taskException j s = (s, .next (match s.forced j.k with
-      | some _ => none
-      | none => if j.ok then none else some .failure)) := rfl
+    (rtPrims limit).taskException j s = (match s.forced j.k with
+      | some _ => (s, .raise .cancelled)
+      | none =>
+        if j.doneBy s.now then (s, .next (if j.ok then none else some .failure))
+        else (s, .raise .failure)) := rfl
 
 theorem doneBy_mono (j : Job) {a b : Nat} (h : a ≤ b) (hd : j.doneBy a = true) : j.doneBy b = true := by
   unfold Job.doneBy at *
@@ -466,10 +470,10 @@ theorem loop_spec (limit : Option Nat) (all : List Job) (hnd : (all.map (·.k)).
           rcases fin_cases j with ⟨hf1, hok⟩ | ⟨hf1, hok⟩
           · have key' := key errcnt
             rw [hfin, hf1] at key' ⊢
-            simpa [hfnone, hok] using key'
+            simpa [hfnone, hok, hdb] using key'
           · have key' := key (errcnt + 1)
             rw [hfin, hf1] at key' ⊢
-            simpa [hfnone, hok] using key'
+            simpa [hfnone, hok, hdb] using key'
 
 /-- the whole of `_run_tasks` on freshly created tasks -/
 theorem runTasks_spec (limit : Option Nat) (js : List Job) (hnd : (js.map (·.k)).Nodup) :
@@ -973,6 +977,111 @@ theorem runForever_spec (c : Cfg) (r : Result) (h : runForever c = some r) (hne 
          first
            | exact ⟨_, _, ⟨rfl, rfl⟩, rfl, rfl, rfl, rfl, rfl, rfl, rfl, rfl, rfl⟩
            | exact ⟨_, _, ⟨rfl, rfl⟩, rfl, rfl, rfl, rfl, by decide, rfl, rfl, rfl, rfl⟩)
+
+/-! #### primitives of run_forever that the model never lets fail
+
+In reality `_test_eager_tasks`, `asyncio.Queue()`, `asyncio.Event()`, `_check_persistent_data`,
+`_resolver.resolve`, `finalize` and the write of the stop time into the storage CAN raise.  Their
+position relative to the `try:` of run_forever matters, so the tie also says what the translated
+skeleton does when one of them fails. -/
+
+inductive RfFault where
+  | testEager | newQueue | newInitDone | checkPersistentData | resolve | finalize | stamp
+  deriving DecidableEq, Repr
+
+def failIf (b : Bool) : M RfState Err Unit Unit := fun s => if b then (s, .raise .failure) else (s, .next ())
+
+@[reducible] def rfPrimsF (c : Cfg) (f : RfFault) : TrL.RunForeverPrims RfState Err Nat :=
+  { rfPrims c with
+    testEager := failIf (decide (f = .testEager))
+    newQueue := failIf (decide (f = .newQueue))
+    newInitDone := failIf (decide (f = .newInitDone))
+    checkPersistentData := failIf (decide (f = .checkPersistentData))
+    resolve := failIf (decide (f = .resolve))
+    finalize := failIf (decide (f = .finalize))
+    stampStopTime := failIf (decide (f = .stamp)) }
+
+theorem failIf_true (s : RfState) : failIf true s = (s, .raise .failure) := rfl
+theorem failIf_false (s : RfState) : failIf false s = (s, .next ()) := rfl
+
+theorem rfF_startLoop (c : Cfg) (f : RfFault) (l : List Nat) (s : RfState) :
+    TrL.runForever_for1 (rfPrimsF c f) l s = TrL.runForever_for1 (rfPrims c) l s := by
+  induction l generalizing s with
+  | nil => rfl
+  | cons k ks ih =>
+    unfold TrL.runForever_for1
+    simp only [bind_apply]
+    cases (blk c.blocks k).fStart <;> simp [ih]
+
+theorem rfF_saveLoop (c : Cfg) (f : RfFault) (l : List Nat) (s : RfState) :
+    TrL.runForever_for2 (rfPrimsF c f) l s = TrL.runForever_for2 (rfPrims c) l s := by
+  induction l generalizing s with
+  | nil => rfl
+  | cons k ks ih =>
+    unfold TrL.runForever_for2
+    simp only [bind_apply, ih]
+
+/-- a failure of one of the set-up steps inside the `try:` (queue, event, persistent data check,
+    name resolution, finalisation) is recorded as the error of the simulation and raised; nothing
+    was started, nothing is stopped, the storage is untouched -/
+theorem prestart_failure_spec (c : Cfg) (f : RfFault) (hb : c.cause.before = false)
+    (hne : c.blocks.isEmpty = false)
+    (hf : f = .newQueue ∨ f = .newInitDone ∨ f = .checkPersistentData ∨ f = .resolve ∨ f = .finalize) :
+    ∃ s', TrL.runForever (rfPrimsF c f) (rfInit c) = (s', .raise .failure) ∧ s'.error = some .failure ∧
+      s'.simtask = true ∧ s'.started = [] ∧ s'.trace = [] ∧ s'.storage = storage0 c.blocks ∧ s'.startOk = false := by
+  unfold TrL.runForever
+  rcases hf with rfl | rfl | rfl | rfl | rfl <;>
+    simp [rfInit, hb, hne, bind_apply, get_apply, pure_apply, raise_apply, tryExcept_apply, ite_apply',
+      failIf_true, failIf_false]
+
+/-- a failure of the eager-task test (before the `try:`, before `_simtask` is set) escapes and
+    leaves the circuit untouched -/
+theorem eager_failure_spec (c : Cfg) (s : RfState) (hs : s.simtask = false) :
+    TrL.runForever (rfPrimsF c .testEager) s = (s, .raise .failure) := by
+  unfold TrL.runForever
+  simp [hs, bind_apply, get_apply, failIf_true]
+
+/-- the write of the stop time sits between the save step and `_stop_sblocks`, outside any `try`:
+    if it fails, the exception escapes run_forever right there – the states were saved, and no block
+    is stopped (the trace ends with the events of the running circuit) -/
+theorem stamp_failure_spec (c : Cfg) (r : Result) (h : runForever c = some r) (hb : c.cause.before = false)
+    (hne : c.blocks.isEmpty = false)
+    (hok : (plan c).phase ≠ .startFailed ∧ (plan c).phase ≠ .afterStart) :
+    ∃ s', TrL.runForever (rfPrimsF c .stamp) (rfInit c) = (s', .raise .failure) ∧
+      s'.trace = (plan c).startEvs ++ (plan c).puts ∧ s'.started = r.started ∧ s'.storage = r.storage ∧
+      s'.startOk = true := by
+  obtain ⟨_, _, hsto⟩ := run_more c r h hb
+  have sp := run_spec c r h hb
+  have hrange : List.range c.blocks.length = List.range' 0 c.blocks.length := List.range_eq_range'
+  have hsl := fun s => rf_startLoop c c.blocks 0 s (by simp)
+  have hall : (startLoop 0 c.blocks).2.2 = false → (startLoop 0 c.blocks).2.1 ≠ [] := by
+    intro hf
+    rw [startLoop_all _ _ hf]
+    cases hbl : c.blocks with
+    | nil => simp [hbl] at hne
+    | cons _ _ => simp [List.range'_succ]
+  unfold TrL.runForever
+  rcases plan_phase_cases c with ⟨_, hph, _⟩ | ⟨_, hph⟩ | ⟨hsf, hph⟩ | ⟨hsf, hph, hie⟩ | ⟨hsf, hph, hie⟩ | ⟨hsf, hph⟩
+  · exact absurd hph hok.1
+  · exact absurd hph hok.2
+  · have hputs : (plan c).puts = [] := by rw [plan_puts_eq, hph]; simp [putBlocksOf]
+    cases hie : (plan c).isError <;>
+      (simp [rfInit, hb, hne, bind_apply, get_apply, pure_apply, raise_apply, tryExcept_apply, ite_apply',
+          hrange, rfF_startLoop, rfF_saveLoop, hsl, hsf, hph, hsto, sp.started,
+          plan_startEvs, plan_started, saveStep_eq, hall hsf, abortBy, rf_saveLoop, hputs, failIf_true, failIf_false, hie])
+  · have hputs : (plan c).puts = [] := by rw [plan_puts_eq, hph]; simp [putBlocksOf]
+    simp [rfInit, hb, hne, bind_apply, get_apply, pure_apply, raise_apply, tryExcept_apply, ite_apply',
+          hrange, rfF_startLoop, rfF_saveLoop, hsl, hsf, hph, hsto, sp.started,
+          plan_startEvs, plan_started, saveStep_eq, hall hsf, abortBy, rf_saveLoop, hputs, failIf_true, failIf_false, hie]
+  · have hputs : (plan c).puts = [] := by rw [plan_puts_eq, hph]; simp [putBlocksOf]
+    simp [rfInit, hb, hne, bind_apply, get_apply, pure_apply, raise_apply, tryExcept_apply, ite_apply',
+          hrange, rfF_startLoop, rfF_saveLoop, hsl, hsf, hph, hsto, sp.started,
+          plan_startEvs, plan_started, saveStep_eq, hall hsf, abortBy, rf_saveLoop, hputs, failIf_true, failIf_false, hie]
+  · have hputs : (plan c).puts = (plan c).puts := rfl
+    cases hie : (plan c).isError <;> cases hpe : (plan c).pendingCancel <;>
+      (simp [rfInit, hb, hne, bind_apply, get_apply, pure_apply, raise_apply, tryExcept_apply, ite_apply',
+          hrange, rfF_startLoop, rfF_saveLoop, hsl, hsf, hph, hsto, sp.started,
+          plan_startEvs, plan_started, saveStep_eq, hall hsf, abortBy, rf_saveLoop, hputs, failIf_true, failIf_false, hie, hpe])
 
 /-! ### `_init_sblocks_async` -/
 
